@@ -474,6 +474,9 @@ impl World {
     fn resp_kind_name(kind: &RespKind) -> String {
         match kind {
             RespKind::Greeting => "greeting".into(),
+            RespKind::Idle { trigger, .. } if *trigger == crate::session::mpd::IdleTrigger::Denied => {
+                "idle_ack".into()
+            }
             RespKind::Idle { changes, .. } => format!("idle{}", changes.len()),
             RespKind::Unit(_) => "unit".into(),
             RespKind::Other => "other".into(),
@@ -784,6 +787,12 @@ impl World {
                 if let Some(w) = self.writer_waker.take() {
                     w.wake();
                 }
+            }
+            FaultKind::IdleDenied(code) => {
+                let now = self.now_ms();
+                self.end_connection("idle_denied", false);
+                let actions = self.mpd.deny_idle(*code, now);
+                self.apply(actions);
             }
             FaultKind::Garbage(g) => {
                 // time-triggered garbage: appended after what has been written so far
